@@ -19,8 +19,27 @@ CheckRect(rc, r, which) ==
   ELSE IF which = "width" /\ ~ValNear(rc.wn, MinW2(r)) THEN "rect-width-not-minimal"
   ELSE "ok"
 
+\* General-position float images (arbitrary rotation, non-dyadic scale): exact collinearity does not survive the map,
+\* so only the covering claims are made - the hull's vertices are control points, the hull is valid and covers every
+\* control point (in the lattice frame, where a point the float hull left out by 1e-13 lies exactly on an edge), the
+\* rotated rectangles cover the hull to within the rectangle tolerance.
+OnSeg2(a,b,p) == Or3(a,b,p) = 0 /\ Min2(a[1],b[1]) <= p[1] /\ p[1] <= Max2(a[1],b[1]) /\ Min2(a[2],b[2]) <= p[2] /\ p[2] <= Max2(a[2],b[2])
+CheckGP(e) ==
+  LET P == AllPts(e.g) hp == e.hull.pts IN
+  IF P = {} THEN (IF e.hull.kind = "empty" THEN "ok" ELSE "hull-kind")
+  ELSE IF ~(SeqSet(hp) \subseteq P) THEN "hull-vertex-is-not-a-control-point"
+  ELSE IF e.hull.kind = "point" THEN (IF P = SeqSet(hp) THEN "ok" ELSE "hull-not-covering")
+  ELSE IF e.hull.kind = "line" THEN (IF Len(hp) = 2 /\ \A p \in P : OnSeg2(hp[1], hp[2], p) THEN "ok" ELSE "hull-not-covering")
+  ELSE IF e.hull.kind # "poly" THEN "hull-kind"
+  ELSE IF ~e.hvalid THEN "hull-invalid"
+  ELSE IF \E p \in P : LocPoly(<<hp>>, H(p)) = "E" THEN "hull-not-covering"
+  ELSE IF e.rects /\ e.ra.kind = "poly" /\ ~RectCovers(e.ra.c, P) THEN "area-rect-not-covering"
+  ELSE IF e.rects /\ e.rw.kind = "poly" /\ ~RectCovers(e.rw.c, P) THEN "width-rect-not-covering"
+  ELSE "ok"
+
 Check(e) ==
   IF e.panic # "" THEN "panic"
+  ELSE IF e.gp THEN CheckGP(e)
   ELSE LET P == AllPts(e.g) h == CheckHullP(P, e.hull) IN
   IF h # "ok" THEN h
   ELSE IF Cardinality(P) \in 1..12 /\ SeqSet(e.hull.pts) # SpecHullSet(P) THEN "hull-not-the-extreme-points"
